@@ -10,6 +10,7 @@
 import Props.Defs
 import Proofs.Indep
 import Proofs.SrcBlind
+import Proofs.Restrict
 namespace Coma.Props
 open Coma Coma.Spec
 
@@ -66,5 +67,29 @@ theorem C10_row_perm (cfg : Cfg) (mode : Mode) (refRows refRows' qryRows qryRows
     runProgram cfg mode refRows qryRows refIds qryIds t it =
     runProgram cfg mode refRows' qryRows' refIds qryIds t it :=
   Coma.Proofs.runProgram_row_perm cfg mode refRows refRows' qryRows qryRows' refIds qryIds t it hr hq h1 h2
+
+/-- MULTI-PASS per-query independence: every file of every output mode, restricted to the records of
+    one query, is what a run on that query alone writes (query ids pairwise distinct).  So adding or
+    removing other molecules cannot change a query's records in any file. -/
+theorem C10_execute_restrict (cfg : Cfg) (mode : Mode) (refs : List OMap) (t : SeedTable) (qs : List OMap) (it : Int)
+    (q : OMap) (hq : q ∈ qs) (hn : (qs.map (·.id)).Nodup) (o : Output)
+    (h : execute cfg mode refs t qs it = .ok o) :
+    execute cfg mode refs t [q] it = .ok (restrictOutput o q.id) :=
+  Coma.Proofs.execute_restrict_eq cfg mode refs t qs it q hq hn o h
+
+/-- a molecule that has no seed at all (no correlation peak: longer than every reference, too few
+    labels) can stand anywhere in the query list: removing it changes no file of any mode (what a
+    positional pairing of rows with molecules would break) -/
+theorem C10_drop_unalignable (cfg : Cfg) (mode : Mode) (refs : List OMap) (t : SeedTable) (qs1 qs2 : List OMap) (q : OMap) (it : Int)
+    (hseed : t.lookup q.key = []) (hn : ((qs1 ++ q :: qs2).map (·.id)).Nodup) :
+    execute cfg mode refs t (qs1 ++ q :: qs2) it = execute cfg mode refs t (qs1 ++ qs2) it :=
+  Coma.Proofs.execute_drop_unalignable cfg mode refs t qs1 qs2 q it hseed hn
+
+/-- the order of the molecules in the query list is irrelevant to every file of EVERY mode -/
+theorem C10_query_perm_all_modes (cfg : Cfg) (mode : Mode) (refs : List OMap) (t : SeedTable) (qs qs' : List OMap) (it : Int)
+    (hp : qs.Perm qs') (hn : (qs.map (·.id)).Nodup) (o o' : Output)
+    (h : execute cfg mode refs t qs it = .ok o) (h' : execute cfg mode refs t qs' it = .ok o') :
+    o = o' :=
+  Coma.Proofs.execute_perm cfg mode refs t qs qs' it hp hn o o' h h'
 
 end Coma.Props
